@@ -258,6 +258,80 @@ const BREAKS_MIDDLE: &[(&str, &str)] = &[
     ("{% cycle g: %}", "cycle without values"),
 ];
 
+/// Every position of the stdlib grammar that takes a value (`@`), for the bad-literal family.
+const VALUE_POSITIONS: &[&str] = &[
+    "{{ @ }}",
+    "{{ x | append: @ }}",
+    "{{ x | replace: 'a', @ }}",
+    "{{ x | default: 1, allow_false: @ }}",
+    "{{ a[@] }}",
+    "{{ a.b[@] }}",
+    "{{ a[b[@]] }}",
+    "{{ a[@].c }}",
+    "{% assign q = @ %}",
+    "{% assign q = x | plus: @ %}",
+    "{% assign q = a[@] %}",
+    "{% if @ %}{% endif %}",
+    "{% if x == @ %}{% endif %}",
+    "{% if @ != x %}{% endif %}",
+    "{% if x contains @ %}{% endif %}",
+    "{% if a[@] %}{% endif %}",
+    "{% if x and @ %}{% endif %}",
+    "{% unless @ > 1 %}{% endunless %}",
+    "{% if x %}{% elsif @ %}{% endif %}",
+    "{% case @ %}{% when 1 %}{% endcase %}",
+    "{% case x %}{% when @ %}{% endcase %}",
+    "{% case x %}{% when 1, @ %}{% endcase %}",
+    "{% case x %}{% when 1 or @ %}{% endcase %}",
+    "{% for i in (@..3) %}{% endfor %}",
+    "{% for i in (1..@) %}{% endfor %}",
+    "{% for i in a[@] %}{% endfor %}",
+    "{% for i in y limit: @ %}{% endfor %}",
+    "{% for i in y offset: @ %}{% endfor %}",
+    "{% for i in y limit: 1 offset: @ %}{% endfor %}",
+    "{% for i in y reversed limit: @ %}{% endfor %}",
+    "{% tablerow i in y cols: @ %}{% endtablerow %}",
+    "{% tablerow i in y limit: @ %}{% endtablerow %}",
+    "{% tablerow i in y offset: @ %}{% endtablerow %}",
+    "{% tablerow i in (1..@) %}{% endtablerow %}",
+    "{% cycle @, 2 %}",
+    "{% cycle 1, @ %}",
+    "{% cycle 'g': 1, @ %}",
+    "{% include 'p' k: @ %}",
+    "{% include @ %}",
+    "{% render 'p', k: @ %}",
+    "{% render 'p' with @ as k %}",
+    "{% render 'p' for @ as k %}",
+    "{% capture c %}{{ @ }}{% endcapture %}",
+    "{% ifchanged %}{{ @ }}{% endifchanged %}",
+    "{% if x %}{% for i in y %}{{ a[@] }}{% endfor %}{% endif %}",
+];
+
+/// Literals the language rejects wherever a value may stand: integers outside the 64-bit range
+/// and malformed decimals.
+const BAD_LITERALS: &[(&str, &str)] = &[
+    ("99999999999999999999", "out-of-range literal"),
+    ("-99999999999999999999", "out-of-range literal"),
+    ("9223372036854775808", "out-of-range literal"),
+    ("-9223372036854775809", "out-of-range literal"),
+    ("+18446744073709551616", "out-of-range literal"),
+    ("1.", "malformed literal"),
+    (".5", "malformed literal"),
+    ("-.5", "malformed literal"),
+    ("1.e3", "malformed literal"),
+];
+
+fn bad_literal_cases() -> Vec<Invalid> {
+    let mut v = Vec::new();
+    for pos in VALUE_POSITIONS {
+        for (lit, why) in BAD_LITERALS {
+            v.push(Invalid { src: pos.replace('@', lit), why: format!("{why} in {pos}") });
+            v.push(Invalid { src: format!("text é {{{{ x }}}} {} tail", pos.replace('@', lit)), why: format!("{why} in {pos}") });
+        }
+    }
+    v
+}
+
 const OPENERS: &[&str] = &["{% if x %}", "{% unless x %}", "{% for i in y %}", "{% tablerow i in y %}", "{% capture z %}", "{% case x %}{% when 1 %}", "{% ifchanged %}", "{% raw %}", "{% comment %}", "{% comment %}{% if x %}", "{% comment %}{% raw %}", "{% if x %}{% comment %}{% unless y %}", "{% comment %}{% comment %}"];
 
 const TAILS: &[(&str, &str)] = &[("{{", "stray delimiter"), ("{%", "stray delimiter"), ("{{ 'abc }}", "unterminated string"), ("{{ \"abc }}", "unterminated string"), ("{% if x", "unterminated tag"), ("{{ x", "unterminated output"), ("{{ x | ", "unterminated output")];
@@ -337,5 +411,6 @@ pub fn run(ctx: &Ctx) {
     ctx.random("mutated_wellformed", ctx.pick(250_000, 2_000_000), mutated, total);
     ctx.random("deep_nesting", ctx.pick(5_000, 100_000), deep, total);
     ctx.cases("invalid_fixed", invalid_fixed(), must_err);
+    ctx.cases("bad_literal_positions", bad_literal_cases(), must_err);
     ctx.random("invalid_generated", ctx.pick(100_000, 600_000), invalid, must_err);
 }
